@@ -171,7 +171,9 @@ Inductive sop :=
 | SSetElem (i : nat) (x : Q)              (* rxnset.X[i] = x *)
 | SSetAll (ys : vec)                      (* rxnset.X = ys  *)
 | SSubAll (lo len : nat) (ys : vec)       (* rxnset[lo:lo+len].X = ys *)
-| SSubElem (lo len i : nat) (x : Q).      (* rxnset[lo:lo+len].X[i] = x *)
+| SSubElem (lo len i : nat) (x : Q)       (* rxnset[lo:lo+len].X[i] = x *)
+| SItemMul (i : nat) (k : Q)              (* item *= k : Reaction.__imul__ goes through the item's X property *)
+| SItemDiv (i : nat) (k : Q).             (* item /= k : __itruediv__ = __imul__(1./k) *)
 
 Fixpoint write_from (xs : vec) (lo : nat) (ys : vec) : vec :=
   match ys with
@@ -192,6 +194,9 @@ Definition sstep (xs : vec) (o : sop) : res vec :=
   | SSetAll ys => do zs <- broadcast (length xs) ys; Ok (write_from xs 0 zs)
   | SSubAll lo len ys => do zs <- broadcast len ys; Ok (write_from xs lo zs)
   | SSubElem lo len i x => if Nat.ltb i len then Ok (upd xs (lo + i) x) else Err EIndex
+  | SItemMul i k => if Nat.ltb i (length xs) then Ok (upd xs i (nthq xs i * k)) else Err EIndex
+  | SItemDiv i k => if qzerob k then Err EZeroDiv
+                    else if Nat.ltb i (length xs) then Ok (upd xs i (nthq xs i * (1 / k))) else Err EIndex
   end.
 
 Definition hread (xs : vec) (h : handle) : vec :=
